@@ -815,6 +815,10 @@ func (x *EvalCtx) callExpr(n *ECall) Val {
 		}
 		x.s.c.declare("textOfBytes", "(declare-fun textOfBytes (Int Int Int) Str)")
 		return Val{T: strT, S: app("textOfBytes", a.Sl.Base, a.Sl.Off, a.Sl.Len)}
+	case "chr":
+		a := x.eval(n.Args[0])
+		x.s.c.declare("chrOf", "(declare-fun chrOf (Int) Str)")
+		return Val{T: strT, S: app("chrOf", a.S)}
 	case "instantOf":
 		a, b := x.eval(n.Args[0]), x.eval(n.Args[1])
 		x.s.c.declare("instantOf", "(declare-fun instantOf (Int Int) Int)")
